@@ -2,6 +2,7 @@ import ZapVerif.Model.Core
 import ZapVerif.Proofs.Core
 import ZapVerif.Proofs.CoreTrace
 import ZapVerif.Gen.FrontEnds
+import ZapVerif.Model.Deliver
 /-! # C06 — Panic and Fatal always terminate, after the entry is written and flushed
 
 The front ends, their levels and every guard between an exported method and `Logger.check` are the regenerated
@@ -155,5 +156,45 @@ example :
     (Gen.frontEnds.filter (fun fe => fe.recv == "zapgrpc.Logger" && fe.name == "Fatalln" && fe.takes fatalL)).map
       (fun fe => (fe.run (fun _ => 0) (fun _ => 0) { core := .nop, onFatal := .noop } fatalL [] {}).evs) =
       [[.term .fatal]] := by decide
+
+/-! ### failing sinks (Model/Deliver.ceWrite, tied by the `failterm` ops: every failing subset of ≤ 3 sinks × level × front end) -/
+
+/-- the terminal action is taken whatever any sink returned: with a terminal hook set, `CheckedEntry.Write` does exactly
+    what it does without one — every accepted sink written, the failure line — and THEN gives up control -/
+theorem terminal_despite_sink_failures (c : Deliver.Core) :
+    Deliver.ceWrite c true = Deliver.ceWrite c false ++ [Deliver.DEv.term] := by
+  simp [Deliver.ceWrite]
+
+/-- … and it is the last thing that happens, exactly once -/
+theorem terminal_last_once (c : Deliver.Core) :
+    (Deliver.ceWrite c true).getLast? = some Deliver.DEv.term ∧ (Deliver.ceWrite c true).count Deliver.DEv.term = 1 := by
+  constructor
+  · simp [Deliver.ceWrite]
+  · simp only [Deliver.ceWrite]
+    rw [List.count_append, List.count_append]
+    have h1 : ∀ l : List Deliver.Sink, (l.map fun s => Deliver.DEv.wrote s.id).count Deliver.DEv.term = 0 := by
+      intro l; induction l with
+      | nil => rfl
+      | cons a t ih => simp [List.count_cons, ih]
+    rw [h1]
+    split <;> simp
+
+/-- before control is lost every sink under every accepting core has been handed the entry, failing or not -/
+theorem failing_sinks_written_before_terminal (c : Deliver.Core) (s : Deliver.Sink)
+    (h : s ∈ (Deliver.accepted c).flatMap Deliver.sinksOf) : Deliver.DEv.wrote s.id ∈ Deliver.ceWrite c false := by
+  simp only [Deliver.ceWrite, List.mem_append, List.mem_map]
+  exact Or.inl (Or.inl ⟨s, h, rfl⟩)
+
+/-- the terminal decision does not read any sink outcome: flipping every write/sync error flag of an ioCore changes
+    neither whether nor when the terminal action is taken relative to the writes -/
+theorem terminal_ignores_outcomes (en : Bool) (sinks : List Deliver.Sink) :
+    (Deliver.ceWrite (.io en sinks) true).filter (· ≠ Deliver.DEv.errLine) =
+      (Deliver.ceWrite (.io en (sinks.map fun s => { s with writeErr := false, syncErr := false })) true).filter (· ≠ Deliver.DEv.errLine) := by
+  cases en <;> simp [Deliver.ceWrite, Deliver.accepted, Deliver.sinksOf, List.filter_append, List.map_map, Function.comp_def,
+    List.filter_map]
+  all_goals (split <;> simp)
+
+example : Deliver.ceWrite (.tee [.io true [⟨0, true, false⟩], .io true [⟨1, false, false⟩]]) true =
+    [.wrote 0, .wrote 1, .errLine, .term] := by decide
 
 end ZapVerif.C06
